@@ -255,7 +255,17 @@ def resolve_source_call(prog, name):
     import inspect
     if inspect.isclass(target) and obj is not program_module(prog):
         return None          # a class of another package is not replaced (isinstance tests elsewhere use the name)
-    return obj, parts[-1]
+    if inspect.isclass(obj):
+        # a method: only plain functions of polyply's / vermouth's own classes are wrapped (by a function, so
+        # that binding still works); methods of foreign classes (pathlib.Path, dict, ...) are used by everybody
+        if not str(getattr(obj, "__module__", "")).startswith(("polyply", "vermouth")):
+            return None
+        if not inspect.isfunction(inspect.getattr_static(obj, parts[-1], None)):
+            return None
+        return obj, parts[-1], "func"
+    if not inspect.ismodule(obj):
+        return None          # an attribute of an instance living in the module namespace: left alone
+    return obj, parts[-1], "call"
 
 
 def unnamed_targets(ctx, prog, flags):
@@ -272,7 +282,7 @@ def unnamed_targets(ctx, prog, flags):
         if target is None:
             ctx.tally(unnamed_stage_unresolvable="%s:%s" % (prog, name))
             continue
-        extra[label] = (target[0], target[1], "call")
+        extra[label] = target
         follows[label] = nxt
     if not answer.get("order") or not answer.get("quiet"):
         ctx.tally(source_order="%s: order=%s quiet-after-flush=%s" % (prog, answer.get("order"), answer.get("quiet")))
